@@ -1,5 +1,5 @@
 (* Proofs/RewireSpec.v — the engine of Model/Rewire.v is the execution of the swap table. *)
-From Coq Require Import ZArith List Arith Bool.
+From Coq Require Import ZArith List Arith Bool QArith.
 From BCT Require Import Base.Mat Base.ListX Model.Rewire Model.RewireSpec.
 Import ListNotations.
 Open Scope Z_scope.
@@ -33,3 +33,86 @@ Theorem attempt_is_table (und : bool) R a b c d e1 e2 i j :
 Proof.
   cbv zeta. split; [destruct und; reflexivity|]. split; [reflexivity|]. split; [symmetry; apply engine_four|symmetry; apply engine_cond].
 Qed.
+
+(* ---------- the whole attempt, table-driven, IS the engine's attempt ---------- *)
+Lemma read_env_std i j e1 e2 :
+  let r0 := read_env reads_std i j e1 e2 in
+  r0 SA = i e1 /\ r0 SB = j e1 /\ r0 SC = i e2 /\ r0 SD = j e2.
+Proof. cbv zeta. repeat split; reflexivity. Qed.
+
+Lemma eval_four_ext (r r' : env) l : (forall s, r s = r' s) -> eval_four r l = eval_four r' l.
+Proof.
+  intros H. unfold eval_four. induction l as [|c l IH]; [reflexivity|]. cbn [forallb]. rewrite IH, !H. reflexivity.
+Qed.
+
+Lemma select_tab_std fuel k ei ej s : select_tab four_std reads_std true fuel k ei ej s = select fuel k ei ej s.
+Proof.
+  revert s. induction fuel as [|f IH]; intros s; [reflexivity|]. cbn [select_tab select].
+  destruct s as [|[z1|q|l] s1]; try reflexivity.
+  destruct (pop_e2 f k (randint k z1) s1) as [[e2 s2]|]; [|reflexivity].
+  rewrite (eval_four_ext _ (mkenv (ei (randint k z1)) (ej (randint k z1)) (ei e2) (ej e2))) by (intros [| | |]; reflexivity).
+  rewrite engine_four. rewrite IH. reflexivity.
+Qed.
+
+Lemma state_eta st : mkst (sR st) (si st) (sj st) = st.
+Proof. destruct st; reflexivity. Qed.
+
+(* the eight engine routines: the attempt read off the table equals the engine's, for every guard g *)
+Theorem attempt_tab_engine (rt : routine) (B : mat Z) g k st s :
+  attempt_tab (spec_of rt) B g k st s = attempt (mkvar (is_und rt) g) k st s.
+Proof.
+  unfold attempt_tab, attempt, spec_of.
+  cbn [ss_four ss_reads ss_redraw ss_flip ss_cond ss_mask ss_writes ss_patches v_und v_guard].
+  rewrite select_tab_std.
+  destruct (select (length s) k (si st) (sj st) s) as [[[e1 e2] s1]|]; [|reflexivity].
+  destruct (read_env_std (si st) (sj st) e1 e2) as (Ea & Eb & Ec & Ed). cbv zeta. rewrite Ea, Eb, Ec, Ed.
+  destruct (is_und rt).
+  - cbn [flip_std]. destruct s1 as [|[z|q|l] s2]; try reflexivity.
+    destruct (Qgtb q (1 # 2)).
+    + rewrite engine_flip. cbn [fst snd sR si sj]. rewrite !vupd_same.
+      rewrite engine_cond. cbn [eval_cond forallb]. rewrite andb_true_r.
+      destruct (Z.eqb (sR st (si st e1) (si st e2)) 0 && Z.eqb (sR st (sj st e2) (sj st e1)) 0 &&
+                g (sR st) (si st e1) (sj st e1) (sj st e2) (si st e2))%bool; [|reflexivity].
+      rewrite engine_writes_und, engine_patches. reflexivity.
+    + cbn [fst snd]. rewrite engine_cond. cbn [eval_cond forallb]. rewrite andb_true_r.
+      destruct (Z.eqb (sR st (si st e1) (sj st e2)) 0 && Z.eqb (sR st (si st e2) (sj st e1)) 0 &&
+                g (sR st) (si st e1) (sj st e1) (si st e2) (sj st e2))%bool.
+      * rewrite engine_writes_und, engine_patches. reflexivity.
+      * rewrite state_eta. reflexivity.
+  - cbn [fst snd]. rewrite engine_cond. cbn [eval_cond forallb]. rewrite andb_true_r.
+    destruct (Z.eqb (sR st (si st e1) (sj st e2)) 0 && Z.eqb (sR st (si st e2) (sj st e1)) 0 &&
+              g (sR st) (si st e1) (sj st e1) (si st e2) (sj st e2))%bool.
+    + rewrite engine_writes_dir, engine_patches. reflexivity.
+    + rewrite state_eta. reflexivity.
+Qed.
+
+(* randomize_graph_partial_und: the table's mask cells, evaluated on B, are the engine's mask guard *)
+Theorem attempt_tab_partial (B : mat Z) k st s :
+  attempt_tab spec_partial_und B no_guard k st s = attempt (mkvar true (mask_guard B)) k st s.
+Proof.
+  unfold attempt_tab, attempt, spec_partial_und.
+  cbn [ss_four ss_reads ss_redraw ss_flip ss_cond ss_mask ss_writes ss_patches v_und v_guard].
+  rewrite select_tab_std.
+  destruct (select (length s) k (si st) (sj st) s) as [[[e1 e2] s1]|]; [|reflexivity].
+  destruct (read_env_std (si st) (sj st) e1 e2) as (Ea & Eb & Ec & Ed). cbv zeta. rewrite Ea, Eb, Ec, Ed.
+  cbn [flip_std]. destruct s1 as [|[z|q|l] s2]; try reflexivity.
+  unfold no_guard. rewrite !andb_true_r.
+  destruct (Qgtb q (1 # 2)).
+  - rewrite engine_flip. cbn [fst snd sR si sj]. rewrite !vupd_same.
+    rewrite engine_cond. unfold mask_std. rewrite (engine_mask B _ _ _ _ (sR st)).
+    destruct (Z.eqb (sR st (si st e1) (si st e2)) 0 && Z.eqb (sR st (sj st e2) (sj st e1)) 0 &&
+              mask_guard B (sR st) (si st e1) (sj st e1) (sj st e2) (si st e2))%bool; [|reflexivity].
+    rewrite engine_writes_und, engine_patches. reflexivity.
+  - cbn [fst snd]. rewrite engine_cond. unfold mask_std. rewrite (engine_mask B _ _ _ _ (sR st)).
+    destruct (Z.eqb (sR st (si st e1) (sj st e2)) 0 && Z.eqb (sR st (si st e2) (sj st e1)) 0 &&
+              mask_guard B (sR st) (si st e1) (sj st e1) (si st e2) (sj st e2))%bool.
+    + rewrite engine_writes_und, engine_patches. reflexivity.
+    + rewrite state_eta. reflexivity.
+Qed.
+
+(* the remaining table columns against the run functions: edge-list source, halving of max_attempts, permutation *)
+Lemma spec_of_columns rt :
+  ss_el (spec_of rt) = (if is_und rt then ELtril else ELall) /\
+  ss_halved (spec_of rt) = (is_latt rt && is_und rt)%bool /\
+  ss_latt (spec_of rt) = is_latt rt /\ ss_lattice (spec_of rt) = is_latt rt /\ ss_conn (spec_of rt) = is_conn rt.
+Proof. repeat split; reflexivity. Qed.
